@@ -359,7 +359,7 @@ func init() {
 			}
 			gid := good.ID()
 			row := func(name string, mut func(b *types.Block) bool) {
-				b, err := decodeBlock(encodeBlock(good))
+				b, err := decodeBlockSafe(encodeBlock(good))
 				if err != nil || !mut(&b) {
 					return
 				}
